@@ -21,7 +21,7 @@ LEVEL = "model_checking"
 
 
 def forms_from_tlc(run, quick):
-    res = mc.run_mc("MC_Frontend_quick" if quick else "MC_Frontend_quick", workers=1, module="MC_Frontend")
+    res = mc.run_mc("MC_Frontend_quick" if quick else "MC_Frontend", workers=1, module="MC_Frontend", timeout=3000)
     run.tlc(res)
     seen, out = set(), []
     for v in res.verdicts:
@@ -264,7 +264,7 @@ def run(run):
     quick = run.tier == "quick"
     forms = forms_from_tlc(run, quick)
     run.extra["forms_enumerated_by_tlc"] = len(forms)
-    use = forms if not quick else rng.sample(forms, 700)
+    use = rng.sample(forms, 700) if quick else rng.sample(forms, min(len(forms), 15000))
     jobs = []
     for f, fin, fout, fapp in use:
         f = {"terms": [dict(t) for t in f["terms"]], "out": dict(f["out"]), "shapes": [list(s) for s in f["shapes"]]}
